@@ -1,7 +1,9 @@
 --------------------------- MODULE ContainerTrace ---------------------------
 (* Trace specification over the events of harness/containers.cpp; CONSTANT Prop selects the clauses of C02
    (serialisation is total, size-exact, never overwrites the payload -- after EVERY edit) or C04 (getters and look-ups
-   equal the shadow list after every edit, and the re-parsed serialisation yields the same list). *)
+   equal the shadow list after every edit, and the re-parsed serialisation yields the same list).
+   `wired` = the driver serialised after this operation: always in the enumerated histories, only at "ser" operations in the
+   lazy histories (edits between two serialisations must show up in the second one). *)
 EXTENDS TraceIO, ContainerAbs
 CONSTANT Prop
 VARIABLE lst
@@ -16,14 +18,14 @@ Op == /\ IsEvent("op")
                      [] OTHER -> lst IN
          /\ lst' = l2
          /\ (IF Prop = "C02"
-             THEN e.thrown = "" /\ SerOK(e.ser)
+             THEN e.thrown = "" /\ (e.wired => SerOK(e.ser))
              ELSE /\ e.thrown = ""
                   /\ e.listed => Triples(e.list) = l2                                              \* the list as the getters show it
                   /\ (e.op = "remove" /\ e.applied) => (e.removed = 1) = (FirstIdx(lst, e.code) # 0)  \* reports whether one existed
                   /\ e.listed => (e.found = (FirstIdx(l2, e.code) # 0))
                   /\ (e.listed /\ e.found) => <<e.fitem[1], e.fitem[2], e.fitem[3]>> = l2[FirstIdx(l2, e.code)]   \* the FIRST match
                   \* through the wire (an entry with a spoofed length cannot be expected to come back)
-                  /\ (e.listed /\ ~Spoofed(l2)) => (e.rt.ok /\ [i \in 1..Len(e.rt.list) |-> <<e.rt.list[i][1], e.rt.list[i][2]>>] = [i \in 1..Len(l2) |-> <<l2[i][1], l2[i][2]>>])
+                  /\ (e.listed /\ e.wired /\ ~Spoofed(l2)) => (e.rt.ok /\ [i \in 1..Len(e.rt.list) |-> <<e.rt.list[i][1], e.rt.list[i][2]>>] = [i \in 1..Len(l2) |-> <<l2[i][1], l2[i][2]>>])
             ) = TRUE
 Next == Op
 Spec == Init /\ [][Next]_vars
